@@ -8,11 +8,12 @@ From Zap Require Import C08.Hygiene Gen.PoolFacts C08.Model C08.Safe C08.Proofs 
 
 (* ---- hygiene of the facts regenerated from zap's source on every run ---- *)
 
-(* for every pooled struct, every field is assigned between Get and hand-over, or is cleared
-   before Put (and New() leaves it visibly empty too), or is the one declared capacity field
+(* for every pooled struct, every field is assigned between Get and hand-over - the same way on
+   every path, never depending on the state the recycled object was left in (k <> KDep) -, or is
+   cleared before Put (and New() leaves it visibly empty too), or is the one declared capacity field
    (Stack.storage) *)
 Theorem C08_hygiene : forall s, In s pool_facts -> forall f, In f (ps_fields s) ->
-  (exists k, lookup f (ps_acquire s) = Some k) \/
+  (exists k, lookup f (ps_acquire s) = Some k /\ k <> KDep) \/
   ((lookup f (ps_release s) = Some KZero \/ lookup f (ps_release s) = Some KTrunc) /\ new_visible_empty s f = true) \/
   In f (capacity (ps_name s)).
 Proof. exact hygiene_fields. Qed.
@@ -27,13 +28,41 @@ Theorem C08_hygiene_sound : forall cap s, hygienic cap s = true ->
 Proof. exact hygiene_sound. Qed.
 Print Assumptions C08_hygiene_sound.
 
-(* ... and the check is not vacuous: a field neither assigned on acquire nor cleared on release
-   makes two pool histories distinguishable *)
+(* ... and the check is not vacuous: a field neither assigned on acquire (on every path alike) nor
+   cleared on release makes two pool histories distinguishable *)
 Theorem C08_unhygienic_leaks : forall s f,
-  lookup f (ps_acquire s) = None -> lookup f (ps_release s) = None ->
+  acq_kind s f = None -> lookup f (ps_release s) = None ->
   exists o, pooled s o /\ forall inp, g_acquire s inp o f <> g_acquire s inp (g_new s) f.
 Proof. exact unhygienic_leaks. Qed.
 Print Assumptions C08_unhygienic_leaks.
+
+(* every path through every Get, and every path to every Put, of the regenerated facts leaves each
+   field in one and the same state: no branch on the recycled object's own state (its capacity, its
+   length, a flag the previous user left) decides WHETHER or HOW a field is reset *)
+Theorem C08_get_paths_agree : forall s, In s pool_facts -> forall f,
+  lookup f (ps_acquire s) <> Some KDep /\ lookup f (ps_release s) <> Some KDep.
+Proof. exact path_independent_fields. Qed.
+Print Assumptions C08_get_paths_agree.
+
+(* ... which matters: a Get that assigns a field on every path, but differently on paths selected by
+   the recycled object (buffer.Pool.Get with "if cap(buf.bs) > max { buf.bs = make([]byte, n) } else
+   { buf.Reset() }"), on a struct that is not cleared before its Put, fails the hygiene check and
+   makes two pool histories distinguishable *)
+Theorem C08_path_dependent_acquire_leaks : forall s f,
+  lookup f (ps_acquire s) = Some KDep -> lookup f (ps_release s) = None ->
+  field_ok [] s f = false /\
+  exists o, pooled s o /\ forall inp, g_acquire s inp o f <> g_acquire s inp (g_new s) f.
+Proof. exact path_dependent_acquire_leaks. Qed.
+Print Assumptions C08_path_dependent_acquire_leaks.
+
+(* the "reset on Get" mechanisms, as regenerated: on every path buffer.Pool.Get truncates the buffer
+   and getCheckedEntry resets every field of the entry *)
+Theorem C08_get_resets :
+  lookup "bs" (ps_acquire (facts PBuf)) = Some KTrunc /\
+  map (fun f => lookup f (ps_acquire (facts PCE))) ["Entry"; "ErrorOutput"; "dirty"; "after"; "cores"] =
+  [Some KZero; Some KZero; Some KZero; Some KZero; Some KTrunc].
+Proof. exact (conj buffer_get_resets checked_entry_get_resets). Qed.
+Print Assumptions C08_get_resets.
 
 (* the model's New / acquire / release code is, field by field, what the generated facts say *)
 Theorem C08_model_matches_facts : forall p,
